@@ -20,6 +20,7 @@ from . import C05
 EXPLANATION = ("The console's posting, finishing and sending helpers are loop-free with the queue API as events; their enumerated paths "
                "are folded over the small state (token present, cursor, pending length) and checked for guards, field writers and "
                "operand provenance.")
+CONFIGS = ['def', 'alloc', 'def-rel']    # these drivers need the `alloc` feature
 FLOORS = {'poster_fns': 1, 'finisher_fns': 1, 'send_fns': 2}
 DRV = 'device::console::VirtIOConsole'
 
